@@ -244,7 +244,7 @@ WORLD_TRUST = [
 ]
 BISYNC_UNIT = dict(template="units/bisync.rs", slice=["*"])
 BISYNC_TWIN = dict(name="bisync_histories", repo_fn="src/bin/copia/bidir.rs run_bisync", quick=1, thorough=90, needs_cli=True,
-                   contract="23 hand-built histories over {write, delete, bisync, dry-run, archive faults, edited/deleted conflict copies, one mtime for every file, leftover staging files} on the real binary, plus an strace pass (open-for-write only on *.copia-tmp, fsync before rename); thorough: plus random histories over the same alphabet for 90 s. Clauses per run: no version lost (C02), converge + record == tree + idempotent (C06), no removal after an archive fault (C07), no foreign bytes at a live path (C08), dry run changes nothing (C15)")
+                   contract="37 hand-built histories over {write, delete, bisync, dry-run, archive faults (removed, truncated, garbage, other / zero / maximal version, only .bak), a delete propagated and the old bytes re-created, losers whose digest starts with zero nibbles, a 250-byte name whose staging name cannot be created, a directory replaced by a file, equal sizes with equal old mtimes, edited/deleted conflict copies, one mtime for every file, leftover staging files} on the real binary, plus an strace pass (open-for-write only on *.copia-tmp, fsync before rename); thorough: plus random histories over the same alphabet for 90 s. Clauses per run: no version lost (C02), converge + record == tree + idempotent (C06), no removal after an archive fault (C07), no foreign bytes at a live path (C08), dry run changes nothing (C15)")
 
 def _bisync(clauses, ignore=None, not_decided=(), only_re=None):
     u = dict(BISYNC_UNIT)
@@ -293,7 +293,7 @@ PROPS["C15"]["clauses"]["bisync --dry-run"] = "run_bisync: opts.dry_run ==> the 
 PROPS["C15"]["trusted"] = COMMON_TRUST + PATH_TRUST + WORLD_TRUST
 
 SERVE_TWIN = dict(name="serve_sessions", repo_fn="src/bin/copia/serve.rs", quick=1, thorough=60, needs_cli=True,
-                  contract="19 deterministic sessions against one to three real `copia serve` processes on one root (interleavings forced by withholding content, holding the commit flock, or strace delay injection): refused Puts keep the stream in step, no path escapes, short content + EOF terminates, bad prologue touches nothing, oversize frame rejected, exactly one of two racing CAS Puts commits, committed means live, overlapping Puts never publish mixed bytes, Delete during Put loses nothing, leftover staging is not published, hash mismatch changes nothing, Get announces what it streams, hostile CBOR (huge declared lengths, deep nesting) under a 512 MiB limit neither kills nor hangs the server, one file under two spellings (doc, ./doc) is still one compare-and-swap, request paths that spell the root itself never put anything outside it, long non-ASCII names are answered; thorough: plus random sequential programs against the compare-and-swap semantics and CONCURRENT random programs (barrier rounds, one server with flock delayed) through a linearizability check")
+                  contract="24 deterministic sessions (one of them: EVERY two-request history on one path over {absent, X, Y} x {Put, Delete} x expected in {None, h(X), h(Y)} x content in {X, Y}, each request to its own server process; others: a same-length same-second commit by another server, refused paths of 600 KB, a Put under a file, Get of every listed path incl. a symlink inside the tree) against one to three real `copia serve` processes on one root (interleavings forced by withholding content, holding the commit flock, or strace delay injection): refused Puts keep the stream in step, no path escapes, short content + EOF terminates, bad prologue touches nothing, oversize frame rejected, exactly one of two racing CAS Puts commits, committed means live, overlapping Puts never publish mixed bytes, Delete during Put loses nothing, leftover staging is not published, hash mismatch changes nothing, Get announces what it streams, hostile CBOR (huge declared lengths, deep nesting) under a 512 MiB limit neither kills nor hangs the server, one file under two spellings (doc, ./doc) is still one compare-and-swap, request paths that spell the root itself never put anything outside it, long non-ASCII names are answered; thorough: plus random sequential programs against the compare-and-swap semantics and CONCURRENT random programs (barrier rounds, one server with flock delayed) through a linearizability check")
 SERVE_TRUST = COMMON_TRUST + [
     "Kani 0.68 + CBMC 6.11 for cas_decide (complete, loop-free, arbitrary 32-byte hashes) on the unedited wire.rs",
     "fs2 flock gives mutual exclusion across server processes; the standard argument 'atomic sections under one lock + CAS at lock acquisition ==> linearizable' is stated, not mechanised",
